@@ -1302,9 +1302,14 @@ FAMILIES = [
            encode_wp, oracle_wp, lambda c, o: any(x[0] == "flush" for x in c["ops"]), describe=lambda c: c["kind"]),
 ]
 
-PROOF_FILES = ["C16/Model.v", "C16/Lists.v", "C16/Policies.v", "C16/Store.v", "C16/Races.v", "C16/Seq.v", "C16/ModelTTL.v", "C16/SoftTTL.v", "C16/ModelMT.v", "C16/MT.v", "C16/ModelPC.v", "C16/PC.v", "C16/ModelWP.v", "C16/Props.v"]
+PROOF_FILES = ["C16/Model.v", "C16/Lists.v", "C16/Policies.v", "C16/Store.v", "C16/Races.v", "C16/Seq.v", "C16/ModelTTL.v", "C16/SoftTTL.v", "C16/ModelMT.v", "C16/MT.v", "C16/ModelPC.v", "C16/PC.v", "C16/ModelWP.v",
+               "Base/PyLib.v", "Gen/EvictionGen.v", "C16/GenTie.v", "C16/Props.v"]
 
 TRUSTED = [
+    "translator harness/translate/py2coq.py + declared types (py2coq_targets.py EvictionGen): LRUEviction and FIFOEviction are regenerated from "
+    "components/datastore/eviction_policies.py on every run and proved to act on the tracked keys as the model policies lru / fifo (C16/GenTie.v); "
+    "idioms trusted: cache keys are integers, an (Ordered)dict is an insertion-ordered association list (d[k] = None stores 0, move_to_end / "
+    "list.remove only under a membership guard, next(iter(d)) is the first key, del d[k] raises on a missing key); the other seven policies are hand-modelled",
     "Coq 8.16.1 kernel (coqc, vm_compute for refutation witnesses and case evaluation); no native_compute",
     "axioms: none",
     "correspondence harness harness/props/c16.py (generators, hand-stepping driver entity, observers, in-Coq comparison ok_* of C16/Model.v)",
@@ -1324,7 +1329,12 @@ def _fast_coq_cases(ctx):
 
 def run(ctx):
     _fast_coq_cases(ctx)
+    from props import pygen
+    ok, info = pygen.regenerate("EvictionGen")    # LRUEviction / FIFOEviction translated from $HS_REPO by py2coq
+    ctx.coverage["regenerated"] = info
     ctx.prove(PROOF_FILES, allowed_axioms=(), trusted_base=TRUSTED)
+    if not ok and ctx.pending_obligation_violation:
+        ctx.pending_obligation_violation["translator"] = info.get("error")
     counts = [ctx.n(80, 1000), ctx.n(50, 500), ctx.n(50, 500), ctx.n(40, 400), ctx.n(50, 500), ctx.n(60, 600)]
     # The families are independent; run them side by side (most of the time is spent waiting for coqc and for
     # the worker processes).  Each family draws from its own generator derived from the run's seed, so the
